@@ -1,6 +1,27 @@
+import os
 import sys
 
 from vfpy.ctx import run_shard_main
 
+
+def _main() -> int:
+    cov_dir = os.environ.get("VF_COVERAGE_DIR")
+    if not cov_dir:
+        return run_shard_main(sys.argv[1:])
+    # Reach measurement (tools/coverage_reach.sh): which lines of onnx_ir the workload of this shard
+    # executes.  Never used for a verdict; forked children that leave through os._exit are not recorded.
+    import coverage
+
+    repo = os.environ.get("VF_REPO", "/repo")
+    cov = coverage.Coverage(data_file=os.path.join(cov_dir, "cov"), data_suffix=True,
+                            source=[os.path.join(repo, "src", "onnx_ir")], concurrency=["thread"])
+    cov.start()
+    try:
+        return run_shard_main(sys.argv[1:])
+    finally:
+        cov.stop()
+        cov.save()
+
+
 if __name__ == "__main__":
-    sys.exit(run_shard_main(sys.argv[1:]))
+    sys.exit(_main())
